@@ -271,7 +271,7 @@ def check_large_integer_weights(case):
 @st.composite
 def _large_weight_case(draw):
     return {"n": draw(st.sampled_from([150, 300, 400, 1000])), "seed": draw(st.integers(0, 2**31 - 1)),
-            "groups": draw(st.integers(1, 3)), "mult": draw(st.sampled_from([1, 1, 100, 1000, 2**50])),  # totals beyond 2**53 too
+            "groups": draw(st.integers(1, 3)), "mult": draw(st.sampled_from([1, 1, 100, 1000, 2**50, 2**58])),  # totals beyond 2**53 and beyond 2**63 too
             "w_kind": draw(st.sampled_from(["list", "int64", "int32", "float", "series", "uint8", "int8", "int16", "uint16",
                                             "series_uint8", "float32"])),
             "yp_dtype": draw(st.sampled_from(["int64", "int64", "uint8", "int8", "int32"])),
